@@ -14,9 +14,23 @@ open Dashu Dashu.Model Dashu.Model.Float Dashu.Props.GenRound
 
 theorem natAbs_natCast_int (n : Nat) : ((n : Int)).natAbs = n := Int.natAbs_natCast n
 
+/-- round 6 (/repo 43925c0): below the saturation point of `precision.saturating_add(den_digits)` the regenerated
+    decisions are the plain ones: `num_digits >= precision + den_digits`, `(precision + den_digits) - num_digits` -/
+theorem to_float_decisions_unsaturated (nd dd p : Nat) (hov : p + dd < 2 ^ 64) :
+    Dashu.Gen.ConvToFloat.to_float_no_shift nd dd p = decide (nd ≥ p + dd) ∧
+    Dashu.Gen.ConvToFloat.to_float_shift nd dd p = (p + dd) - nd := by
+  have e : Dashu.Gen.ConvToFloat.to_float_need_digits dd p = p + dd := by
+    unfold Dashu.Gen.ConvToFloat.to_float_need_digits
+    exact Nat.min_eq_left (by omega)
+  unfold Dashu.Gen.ConvToFloat.to_float_no_shift Dashu.Gen.ConvToFloat.to_float_shift
+  rw [e]
+  exact ⟨rfl, rfl⟩
+
 /-- `Repr::to_float`, quotient stage: `num·B^shift = q·den + r`, `|r| < den`, and the scaled quotient has at least
-    `precision` digits (`den·B^(p-1) ≤ |num|·B^shift`) -/
-theorem toFloatQuot_spec (B : Nat) (hB : 2 ≤ B) (num : Int) (den p : Nat) (hn : num ≠ 0) (hd : 0 < den) (hp : 1 ≤ p) :
+    `precision` digits (`den·B^(p-1) ≤ |num|·B^shift`).  `hov`: the digit sum does not saturate (`usize`; a saturated
+    sum asks for a shift of `usize::MAX − num_digits` digits, which no allocation can hold). -/
+theorem toFloatQuot_spec (B : Nat) (hB : 2 ≤ B) (num : Int) (den p : Nat) (hn : num ≠ 0) (hd : 0 < den) (hp : 1 ≤ p)
+    (hov : p + ilogB B (den : Int) < 2 ^ 64) :
     num * ((B ^ (toFloatQuot B num den p).1 : Nat) : Int) =
         (toFloatQuot B num den p).2.1 * (den : Int) + (toFloatQuot B num den p).2.2 ∧
       |(toFloatQuot B num den p).2.2| < (den : Int) ∧
@@ -33,7 +47,10 @@ theorem toFloatQuot_spec (B : Nat) (hB : 2 ≤ B) (num : Int) (den p : Nat) (hn 
     have e : p + (digitsI B (den : Int) - 1) = digitsI B (den : Int) + (p - 1) := by omega
     rw [e, Nat.pow_add]
     exact Nat.mul_lt_mul_of_pos_right hdup (Nat.pow_pos hB0)
-  unfold toFloatQuot ilogB Dashu.Gen.ConvToFloat.to_float_no_shift Dashu.Gen.ConvToFloat.to_float_shift
+  obtain ⟨hns, hsh⟩ := to_float_decisions_unsaturated (digitsI B num - 1) (digitsI B (den : Int) - 1) p
+    (by unfold ilogB at hov; exact hov)
+  unfold toFloatQuot ilogB
+  simp only [hns, hsh]
   by_cases h : digitsI B num - 1 ≥ p + (digitsI B (den : Int) - 1)
   · simp only [h, decide_true, if_true]
     obtain ⟨hdec, hlt⟩ := tdiv_tmod_nz num (den : Int) hdi
@@ -114,11 +131,10 @@ theorem ratToFloat_contract_of_fits (B : Nat) (hB : 2 ≤ B) (m : Float.Mode) (c
       Contract B m p ((num : ℚ) / (den : ℚ)) (r.1.toRat B) r.2 := by
   have hB0 : 0 < B := by omega
   have hp0 : p ≠ 0 := by omega
-  have hov' : ¬ (p + ilogB B (den : Int) ≥ 2 ^ 64) := by omega
-  obtain ⟨hdec, hlt, hulp⟩ := toFloatQuot_spec B hB num den p hn hd hp
+  obtain ⟨hdec, hlt, hulp⟩ := toFloatQuot_spec B hB num den p hn hd hp hov
   unfold toFloatN1 at hfit
   unfold ratToFloat
-  simp only [hp0, hn, hov', if_false]
+  simp only [hp0, hn, if_false]
   rw [reprRound_exact_of_fits B m c p _ hfit]
   refine ⟨_, rfl, ?_⟩
   simp only [andThenFlag]
@@ -386,11 +402,10 @@ theorem ratToFloat_contract_directed (B : Nat) (hB : 2 ≤ B) (m : Float.Mode) (
   · exact ratToFloat_contract_of_fits B hB m c num den p hn hd hp hov hfit
   have hB0 : 0 < B := by omega
   have hp0 : p ≠ 0 := by omega
-  have hov' : ¬ (p + ilogB B (den : Int) ≥ 2 ^ 64) := by omega
-  obtain ⟨hdec, hlt, hulp⟩ := toFloatQuot_spec B hB num den p hn hd hp
+  obtain ⟨hdec, hlt, hulp⟩ := toFloatQuot_spec B hB num den p hn hd hp hov
   unfold toFloatN1 at hfit
   unfold ratToFloat
-  simp only [hp0, hn, hov', if_false]
+  simp only [hp0, hn, if_false]
   refine ⟨_, rfl, ?_⟩
   generalize toFloatQuot B num den p = t at *
   have hD : (0 : Int) < (den : Int) := by exact_mod_cast hd
@@ -707,11 +722,10 @@ theorem ratToFloat_contract_of_exact (B : Nat) (hB : 2 ≤ B) (m : Float.Mode) (
   · exact ratToFloat_contract_of_fits B hB m c num den p hn hd hp hov hfit
   have hB0 : 0 < B := by omega
   have hp0 : p ≠ 0 := by omega
-  have hov' : ¬ (p + ilogB B (den : Int) ≥ 2 ^ 64) := by omega
-  obtain ⟨hdec, _, _⟩ := toFloatQuot_spec B hB num den p hn hd hp
+  obtain ⟨hdec, _, _⟩ := toFloatQuot_spec B hB num den p hn hd hp hov
   unfold toFloatN1 at hfit
   unfold ratToFloat
-  simp only [hp0, hn, hov', if_false]
+  simp only [hp0, hn, if_false]
   refine ⟨_, rfl, ?_⟩
   generalize toFloatQuot B num den p = t at *
   have hff : toFloatFirst m den t.2.1 t.2.2 = (t.2.1, none) := by unfold toFloatFirst; simp [hex]
